@@ -465,7 +465,7 @@ def flat_lookahead(rest_first, page_width, min_nesting, smart, leaves, offs):
             for c in reversed(s[1]):
                 stack.append((ind, mode, c))
         elif kind == 'nest':
-            stack.append((ind + _off(s[1], offs), mode, s[2]))
+            stack.append((None if ind is None else ind + _off(s[1], offs), mode, s[2]))
         elif kind == 'grp':
             stack.append((ind, F, s[1]))
         elif kind in ('line', 'softline', 'hardline'):
@@ -480,6 +480,10 @@ def flat_lookahead(rest_first, page_width, min_nesting, smart, leaves, offs):
                 else:
                     if cur > budget:
                         later_overflow = True
+                if smart and ind is None:
+                    # the indentation of this break depends on an align/hang
+                    # column: continuation lines are not modelled
+                    raise Unmodelled('line break below align/hang under the smart strategy')
                 if smart and ind > min_nesting:
                     budget = page_width - ind
                     cur = 0
@@ -495,8 +499,12 @@ def flat_lookahead(rest_first, page_width, min_nesting, smart, leaves, offs):
             return first_line, True, later_overflow
         elif kind == 'ann':
             stack.append((ind, mode, s[2]))
-        elif kind in ('align', 'hang'):
-            raise Unmodelled(kind)
+        elif kind == 'align':
+            # on the current line an align only changes the indentation of later
+            # breaks (unknown here: None)
+            stack.append((None, mode, s[1]))
+        elif kind == 'hang':
+            stack.append((None, mode, s[2]))
         else:
             raise ValueError(s)
     if first_line is None:
